@@ -364,6 +364,17 @@ def impl_init():
                                                                 timestamp=ts - 100, eol_padding_length=ref.options.eol_padding_length)
                                 _t.time_ns = lambda: (t0 + 1000) * 10 ** 6
                                 rec["up_pinned"] = fingerprint_uptime(pp, ref, options=Options(database=db)).tps
+                                # the reference as an application really keeps it: the signature of an EARLIER parsed packet of the flow (it shares that packet's
+                                # options object).  A measurement reads it; afterwards the earlier packet, the reference and this packet say what they said
+                                import copy as _c
+                                prev = parse_packet(scapy[o["pkt"]])
+                                prev.tcp.options.timestamp = ts - 100
+                                _t.time_ns = lambda: t0 * 10 ** 6
+                                ref2 = TCPPacketSignature.from_packet(prev)
+                                snap_prev, snap_ref, snap_pp = _c.deepcopy(prev), _c.deepcopy(ref2), _c.deepcopy(pp)
+                                _t.time_ns = lambda: (t0 + 1000) * 10 ** 6
+                                tps2 = fingerprint_uptime(pp, ref2, options=Options(database=db)).tps
+                                rec["up_ref_kept"] = [tps2, prev == snap_prev, ref2 == snap_ref, pp == snap_pp]
                             finally:
                                 _t.time_ns = real
                         out.append(rec)
@@ -405,6 +416,11 @@ def judge(c, ir, mr):
                 return {"kind": "a fingerprint result depends on the call history (differs from the pure function of input, database, options)",
                         "why": "op %d %s: with the clock pinned (reference taken at t0, packet 1000 ms and 100 ticks later) fingerprint_uptime reports tps %r instead of 100 after an earlier "
                                "call had read a later clock value" % (k, c["ops"][k], a["up_pinned"]), "judged_by": "C16_history + C13_rate (100 ticks / 1000 ms)"}
+            if "up_ref_kept" in a and a["up_ref_kept"] != [100, True, True, True]:
+                return {"kind": "a fingerprint result depends on the call history (differs from the pure function of input, database, options)",
+                        "why": "op %d %s: a measurement against the kept signature of an earlier parsed packet gives [tps, earlier packet unchanged, reference unchanged, this packet unchanged] = %s; "
+                               "expected [100, True, True, True]: whatever is fingerprinted from those objects next would differ" % (k, c["ops"][k], a["up_ref_kept"]),
+                        "judged_by": "C16_history + C13_rate (100 ticks / 1000 ms)"}
             if a["up"] != ["Packet", True, True]:
                 return {"kind": "a fingerprint result depends on the call history (differs from the pure function of input, database, options)",
                         "why": "op %d %s: fingerprint_uptime's result carries [type of .packet, equal to parse_packet(input), parsed input handed back] = %s; expected ['Packet', True, True] "
